@@ -38,10 +38,16 @@ class HelpersBounded(BoundedCheck):
                 for fi, fill in enumerate(fills):
                     for fn in ('lag', 'lead', 'shift', 'diff', 'dlog'):
                         yield {'fn': fn, 'x': x, 'p': p, 'fill': 'nan' if math.isnan(fill) else fill}
+                        if fi == 0 and n in (2, 3):
+                            # the same with the shift given as a NumPy integer, positionally / by keyword, and with the default fill value
+                            yield {'fn': fn, 'x': x, 'p': p, 'fill': 'nan', 'spelling': 'numpy-int'}
+                            yield {'fn': fn, 'x': x, 'p': p, 'fill': 'nan', 'spelling': 'default-fill'}
 
     def check(self, case, res: BoundedResult):
         import fsic.functions as F
         fn, xs, p = case['fn'], case['x'], case['p']
+        if case.get('spelling') == 'numpy-int':
+            p = np.int64(p)
         fill = float('nan') if case['fill'] == 'nan' else float(case['fill'])
         x = np.array(xs, dtype=float)
         x0 = x.copy()
@@ -49,18 +55,20 @@ class HelpersBounded(BoundedCheck):
         out = []
         res.nontrivial.add((fn, n, p, case['fill']))
 
+        fkw = {} if case.get('spelling') == 'default-fill' else {'fill_value': fill}
+
         def lag_spec(arr, q):
             return np.array([arr[i - q] if 0 <= i - q < n else fill for i in range(n)], dtype=float)
         try:
             if fn in ('lag', 'shift'):
-                r = getattr(F, fn)(x, p, fill_value=fill)
+                r = getattr(F, fn)(x, p, **fkw)
                 exp = lag_spec(x0, p)
                 clause, ob = f'{fn}(x,p)[i] == x[i-p] inside, fill_value elsewhere', 'result_is_shift_of_input'
                 res.cover('lag:p>0' if p > 0 else 'lag:p<0' if p < 0 else 'lag:p==0')
                 if abs(p) >= n and n > 0:
                     res.cover('lag:|p|>=n')
             elif fn == 'lead':
-                r = F.lead(x, p, fill_value=fill)
+                r = F.lead(x, p, **fkw)
                 exp = lag_spec(x0, -p)
                 clause, ob = 'lead(x,p) == lag(x,-p)', 'lead_is_lag_of_minus_p'
             elif fn in ('diff', 'dlog'):
@@ -68,7 +76,7 @@ class HelpersBounded(BoundedCheck):
                 if d < 0:
                     res.cover('diff:d<0')
                     try:
-                        getattr(F, fn)(x, d, fill_value=fill)
+                        getattr(F, fn)(x, d, **fkw)
                     except NotImplementedError:
                         return out
                     out.append(Violation('diff with d < 0 raises NotImplementedError', f'c16.{fn}.negative-d', case,
@@ -76,7 +84,7 @@ class HelpersBounded(BoundedCheck):
                     return out
                 res.cover('diff:d>0' if d > 0 else 'diff:d==0')
                 base = np.log(x0) if fn == 'dlog' else x0
-                r = getattr(F, fn)(x, d, fill_value=fill)
+                r = getattr(F, fn)(x, d, **fkw)
                 if d == 0:
                     exp = base
                 else:
